@@ -18,20 +18,35 @@ inductive Items where
 def parseRe (w : String) : Option (Option Regex) :=
   if w == "_" then some none
   else match w.toList with
-    | 'r' :: h => (parseHex (String.ofList h)).map fun p => some ⟨p, false⟩
-    | 'i' :: h => (parseHex (String.ofList h)).map fun p => some ⟨p, true⟩
+    | 'r' :: h => (parseHex (String.ofList h)).map fun p => some ⟨p, {}⟩
+    | 'i' :: h => (parseHex (String.ofList h)).map fun p => some ⟨p, { icase := true }⟩
+    | 'u' :: h => (parseHex (String.ofList h)).map fun p => some ⟨p, { utf8 := true }⟩
+    | 'v' :: h => (parseHex (String.ofList h)).map fun p => some ⟨p, { icase := true, utf8 := true }⟩
     | _ => none
 
 def parseInt (w : String) : Option Int := w.toInt?
 
 def parseSel (w : String) : Option (List Int) := (w.splitOn ",").mapM parseInt
 
+def parsePType (w : String) : Option PType :=
+  if w == "s" then some .str else if w == "i" then some .i32 else if w == "u" then some .u32
+  else if w == "l" then some .i64 else if w == "q" then some .u64 else none
+
+def parseTyped (w : String) : Option (List (Int × PType)) :=
+  (w.splitOn ",").mapM fun p => match p.splitOn "." with
+    | [g, t] => match parseInt g, parsePType t with
+      | some g, some t => some (g, t)
+      | _, _ => none
+    | _ => none
+
 def parseKind (w : String) : Option Kind :=
   if w == "h0" then some .h0
+  else if w == "t" then some (.typed [])
   else if w == "rh" then some .rh
   else if w == "g" then some (.gen none)
   else match w.splitOn ":" with
     | ["hN", s] => (parseSel s).map .hN
+    | ["t", s] => (parseTyped s).map .typed
     | ["g", g, v] => match parseInt g, parseHex v with
       | some g, some v => some (.gen (some (g, v)))
       | _, _ => none
@@ -64,8 +79,9 @@ def parseItems : Nat → List String → Option (Items × List String)
     | _, _, _, _ => none
   | _, _ => none
 
+/-- "CA": the child is given to its parent with `application::add(…)` instead of `attach(…)`: same routing -/
 def parseTree (ws : List String) : Option Items :=
-  match ws with
+  match ws.map (fun w => if w == "CA" then "C" else w) with
   | "{" :: ws => match parseItems (ws.length + 1) ws with
     | some (t, []) => some t
     | _ => none
@@ -105,7 +121,7 @@ def Items.mnode (acc : MNode) : Items → Option MNode
 /-- every `booster::regex` the constructors build (handlers, method filters, mounts) -/
 def Items.regexes : Items → List Regex
   | .nil => []
-  | .L l rest => l.re :: (match l.meth with | some m => [⟨m, false⟩] | none => []) ++ rest.regexes
+  | .L l rest => l.re :: (match l.meth with | some m => [⟨m, {}⟩] | none => []) ++ rest.regexes
   | .U _ _ rest => rest.regexes
   | .C re _ _ _ child rest => (match re with | some r => [r] | none => []) ++ child.regexes ++ rest.regexes
 
@@ -147,6 +163,7 @@ def optsChain (items : Items) : List Bytes → List Opts → Option (List Opts)
 structure Oracle where
   infos : List (String × Option Nat) := []
   execs : List (String × String × Option Raw) := []
+  valids : List (String × Bool) := []
 
 def parseSpan (w : String) : Option Span :=
   match w.splitOn "." with
@@ -168,13 +185,15 @@ def parseOracle : List String → Oracle → Option Oracle
     else match c.toNat? with
       | some n => parseOracle ws { o with infos := (t, some n) :: o.infos }
       | none => none
+  | "V" :: s :: b :: ws, o => parseOracle ws { o with valids := (s, b == "1") :: o.valids }
   | "O" :: t :: s :: r :: ws, o =>
     match parseRaw r with
     | some r => parseOracle ws { o with execs := (t, s, r) :: o.execs }
     | none => none
   | _, _ => none
 
-def reTok (pat : Bytes) (ic : Bool) : String := (if ic then "i" else "r") ++ toHex pat
+def reTok (pat : Bytes) (f : RFlags) : String :=
+  (match f.icase, f.utf8 with | false, false => "r" | true, false => "i" | false, true => "u" | true, true => "v") ++ toHex pat
 
 /-- the engine, as recorded from libpcre by the harness for this case (unknown question = no match) -/
 def Oracle.rx (o : Oracle) : Rx where
@@ -187,6 +206,9 @@ def Oracle.rx (o : Oracle) : Rx where
     match o.execs.find? (fun e => e.1 == t && e.2.1 == h) with
     | some (_, _, r) => r
     | none => none
+  valid s := match o.valids.find? (·.1 == toHex s) with
+    | some (_, b) => b
+    | none => true
 
 /-! ### printing -/
 
@@ -220,7 +242,7 @@ def mapStr : Except MapErr Bytes → String
   | .ok u => "ok:" ++ toHex u
   | .error e => "err:" ++ mapErrStr e
 
-def regexesOk (rx : Rx) (rs : List Regex) : Bool := rs.all fun r => (rx.info r.pat r.icase).isSome
+def regexesOk (rx : Rx) (rs : List Regex) : Bool := rs.all fun r => (rx.info r.pat r.flags).isSome
 
 def parseMp (ws : List String) : Option (MountPoint × List String) :=
   match ws with
